@@ -125,7 +125,7 @@ func MapCustom(flowMessage *ProtoProducerMessage, v []byte, cfg MappableField) e
 
 	fieldValue := vfm.FieldByName(cfg.GetDestination())
 
-	if fieldValue.IsValid() {
+	if fieldValue.IsValid() && fieldValue.CanSet() { // only exported columns can be a destination
 		typeDest := fieldValue.Type()
 		fieldValueAddr := fieldValue.Addr()
 
